@@ -78,7 +78,7 @@ PROFILES = {
     "sessions": {"p_inbound": 0.7, "p_bad_connack": 0.3, "p_session_loss": 0.4, "p_drop": 0.15, "w_poll": 12, "w_recv": 3,
                  "p_dead_call": 0.6, "calls": 40, "max_conns": 10},
     # keep-alive traffic under cancellation: polls dropped while a PINGREQ is being written / flushed
-    "pingcancel": {"time": True, "ska": [1, 2, 3], "p_pend": 0.5, "p_cancel": 0.45, "p_partial": 0.3, "p_no_pingresp": 0.1,
+    "pingcancel": {"p_stall_loop": 0.08, "time": True, "ska": [1, 2, 3], "p_pend": 0.5, "p_cancel": 0.45, "p_partial": 0.3, "p_no_pingresp": 0.1,
                    "w_poll": 20, "w_recv": 4, "w_pub0": 1, "w_pub1": 1, "w_pub2": 0, "w_sub": 0, "w_unsub": 0, "w_disconnect": 0,
                    "p_drop": 0.0, "p_fault": 0.0, "p_inbound": 0.1, "p_broker_disconnect": 0.0, "calls": 30, "p_delay": 0.3},
     # a transport whose write accepts nothing now and then (Ok(0)): the client reports it and stays connected
